@@ -90,6 +90,8 @@ const (
 	// same time; the scenario gives it to exactly `limit` functions, so they
 	// must all get through (capacity is real).
 	Bar = "bar"
+	// GateFail: like Gate, then return the injected error (a function that fails after the directive has already returned)
+	GateFail = "gatefail"
 )
 
 // Decision is the driver's answer for one invocation.
@@ -196,7 +198,7 @@ func Call(id string, ctx context.Context, args ...uint64) Result {
 		runtime.Goexit()
 	case Cancel:
 		H.CancelCtx()
-	case Gate:
+	case Gate, GateFail:
 		H.Gate()
 	case OverBar, Bar:
 		H.OverBar()
